@@ -327,6 +327,9 @@ pub fn run(tier: Tier) {
         repeat_for::<V1024>(&mut ctx, *s, &format!("at least {} rejected candidates", k));
     }
     bit_flips::<V512>(&mut ctx, seed_bytes(off), &format!("LE64({})", off), (0..256).collect());
+    // seeds at the other end of every byte's range (arithmetic on seed bytes saturates or wraps there)
+    bit_flips::<V512>(&mut ctx, [0xffu8; 32], "ff^32", (0..256).collect());
+    bit_flips::<V1024>(&mut ctx, [0xffu8; 32], "ff^32", if tier.thorough() { (0..256).collect() } else { (0..256).step_by(32).chain(244..256).collect() });
     if tier.thorough() {
         bit_flips::<V512>(&mut ctx, ff, "fe||ff^31", (0..256).collect());
         bit_flips::<V1024>(&mut ctx, seed_bytes(off), &format!("LE64({})", off), (0..256).collect());
@@ -336,7 +339,7 @@ pub fn run(tier: Tier) {
     // seeds on which key generation takes its retry branches (first candidate does not fit the fixed-width
     // encoding; longest run of rejected candidates): whatever is derived from the seed on a retry must still
     // depend on every bit of it
-    bit_flips::<V512>(&mut ctx, seed_bytes(785), "LE64(785) [first candidate does not fit the encoding]", (0..256).collect());
+    bit_flips::<V512>(&mut ctx, seed_bytes(785), "LE64(785) [first candidate does not fit the encoding]", if tier.thorough() { (0..256).collect() } else { (0..256).step_by(8).chain(240..256).collect() });
     bit_flips::<V1024>(&mut ctx, seed_bytes(14), "LE64(14) [first candidate does not fit the encoding]", if tier.thorough() { (0..256).collect() } else { (0..256).step_by(16).chain(248..256).collect() });
     if let Some((s, k)) = long512.first() {
         bit_flips::<V512>(&mut ctx, seed_bytes(*s), &format!("LE64({}) [at least {} rejected candidates]", s, k), if tier.thorough() { (0..256).collect() } else { (0..256).step_by(8).chain(248..256).collect() });
